@@ -408,6 +408,13 @@ func registeredValidators(p *Program) (map[string]map[string]bool, map[string]bo
 	return regs, aliases
 }
 
+// libraryConsumers: configuration values that a dependency parses on pike's
+// behalf (confirmed by reading the dependency), so the validator must use the
+// dependency's parser.
+var libraryConsumers = []struct{ typ, field, call, parser, reason string }{
+	{"UpstreamServerConfig", "Addr", "(*github.com/vicanso/upstream.HTTP).Add", "net/url.Parse", "upstream.HTTP.Add calls url.Parse on the address and NewUpstreamServer does not report its error"},
+}
+
 func ruleValidatorsAgree(c *Ctx) {
 	regs, aliases := registeredValidators(c.P)
 	if len(regs) < 5 {
@@ -439,7 +446,7 @@ func ruleValidatorsAgree(c *Ctx) {
 		}
 	}
 	// consumers: pike code outside package config that parses a config field leniently
-	parsers := map[string]bool{"time.ParseDuration": true, "github.com/dustin/go-humanize.ParseBytes": true, "regexp.Compile": true, "strings.Split": true, "strings.SplitN": true, "strings.Cut": true, "net/url.Parse": true, "strconv.Atoi": true}
+	parsers := map[string]bool{"time.ParseDuration": true, "github.com/dustin/go-humanize.ParseBytes": true, "regexp.Compile": true, "regexp.MustCompile": true, "regexp.CompilePOSIX": true, "regexp.MustCompilePOSIX": true, "strings.Split": true, "strings.SplitN": true, "strings.Cut": true, "net/url.Parse": true, "strconv.Atoi": true}
 	consumers := 0
 	for _, f := range c.P.allFuncs {
 		if inPkg(f, "config") {
@@ -466,6 +473,13 @@ func ruleValidatorsAgree(c *Ctx) {
 				if p == "strings.Split" {
 					same = []string{"strings.Split", "strings.Count"}
 				}
+				if p == "regexp.Compile" || p == "regexp.MustCompile" {
+					same = []string{"regexp.Compile", "regexp.MustCompile"}
+				}
+				if p == "regexp.CompilePOSIX" || p == "regexp.MustCompilePOSIX" {
+					// the POSIX syntax is a strict subset with different semantics: only a POSIX validator agrees
+					same = []string{"regexp.CompilePOSIX", "regexp.MustCompilePOSIX"}
+				}
 				if p == "strings.SplitN" || p == "strings.Cut" || p == "strings.Index" {
 					same = []string{"strings.Split", "strings.SplitN", "strings.Count", "strings.Cut", "strings.Index", "strings.IndexByte", "strings.Contains"}
 				}
@@ -480,6 +494,49 @@ func ruleValidatorsAgree(c *Ctx) {
 					bad = append(bad, fmt.Sprintf("%s: %s parses config field %s with %s, but no validator of that field uses the same parser (tags %v): an accepted configuration can still fail to apply", c.P.pos(in.Pos()), funcName(f), fv.Name(), p, fieldTags[fv]))
 				}
 			}
+		}
+	}
+	// consumers behind a library boundary: the dependency parses the value and pike drops its error
+	for _, lc := range libraryConsumers {
+		called := false
+		for _, f := range c.P.allFuncs {
+			for _, b := range f.Blocks {
+				for _, in := range b.Instrs {
+					if ci, ok := in.(ssa.CallInstruction); ok {
+						if sc := ci.Common().StaticCallee(); sc != nil && sc.String() == lc.call {
+							called = true
+						}
+					}
+				}
+			}
+		}
+		if !called {
+			continue // pike no longer hands the value to that library function
+		}
+		var fv *types.Var
+		for _, s := range configStructs(c.P) {
+			if s.Obj().Name() != lc.typ {
+				continue
+			}
+			st := s.Underlying().(*types.Struct)
+			for i := 0; i < st.NumFields(); i++ {
+				if st.Field(i).Name() == lc.field {
+					fv = st.Field(i)
+				}
+			}
+		}
+		if fv == nil {
+			continue
+		}
+		consumers++
+		okV := false
+		for _, tag := range fieldTags[fv] {
+			if regs[tag][lc.parser] {
+				okV = true
+			}
+		}
+		if !okV {
+			bad = append(bad, fmt.Sprintf("config field %s.%s is parsed by %s with %s (%s), but no validator of that field uses the same parser (tags %v): an accepted configuration can still fail to apply", lc.typ, lc.field, lc.call, lc.parser, lc.reason, fieldTags[fv]))
 		}
 	}
 	if consumers < 5 {
